@@ -17,6 +17,7 @@ import (
 	"time"
 
 	"github.com/MichaelMure/git-bug/entities/bug"
+	"github.com/MichaelMure/git-bug/entities/common"
 	"github.com/MichaelMure/git-bug/entities/identity"
 	"github.com/MichaelMure/git-bug/entity"
 	"github.com/MichaelMure/git-bug/entity/dag"
@@ -216,6 +217,64 @@ func mutateBug(chain []*packSpec, i int, m string, author identity.Interface) []
 		}
 		hx.Must(err)
 		p.ops = append(ops, b)
+	case "odd_label_dup_removed", "odd_label_dup", "odd_label_remove_absent", "odd_label_add_remove", "odd_status_same", "odd_title_same",
+		"odd_edit_non_comment", "odd_edit_unknown", "odd_meta_unknown", "odd_comment_huge", "odd_time_before_create", "odd_time_negative", "odd_many_labels":
+		// operations no honest client writes but whose form is impeccable: they may be accepted or refused; accepted, the bug
+		// has to compile (that is what builds its excerpt), read back and validate
+		L := func(ls ...string) []bug.Label {
+			var out []bug.Label
+			for _, l := range ls {
+				out = append(out, bug.Label(l))
+			}
+			return out
+		}
+		unknown := entity.Id(strings.Repeat("0123456789abcdef", 4))
+		var op dag.Operation
+		var more []dag.Operation
+		switch m {
+		case "odd_label_dup_removed":
+			op = bug.NewLabelChangeOperation(author, 1600000900, L("x", "x"), L("x"))
+		case "odd_label_dup":
+			op = bug.NewLabelChangeOperation(author, 1600000900, L("y", "y", "y"), nil)
+			more = append(more, bug.NewLabelChangeOperation(author, 1600000901, nil, L("y")))
+		case "odd_label_remove_absent":
+			op = bug.NewLabelChangeOperation(author, 1600000900, nil, L("never added", "never added"))
+		case "odd_label_add_remove":
+			op = bug.NewLabelChangeOperation(author, 1600000900, L("w", "v"), L("w", "v", "w"))
+		case "odd_many_labels":
+			var many []string
+			for k := 0; k < 300; k++ {
+				many = append(many, fmt.Sprintf("label-%03d", k%150))
+			}
+			op = bug.NewLabelChangeOperation(author, 1600000900, L(many...), L(many[:100]...))
+		case "odd_status_same":
+			op = bug.NewSetStatusOp(author, 1600000900, common.OpenStatus)
+			more = append(more, bug.NewSetStatusOp(author, 1600000901, common.ClosedStatus), bug.NewSetStatusOp(author, 1600000902, common.ClosedStatus))
+		case "odd_title_same":
+			op = bug.NewSetTitleOp(author, 1600000900, "same title", "never was")
+			more = append(more, bug.NewSetTitleOp(author, 1600000901, "same title", "same title"))
+		case "odd_edit_non_comment":
+			t := bug.NewSetTitleOp(author, 1600000900, "a title to aim at", "was")
+			op = t
+			more = append(more, bug.NewEditCommentOp(author, 1600000901, t.Id(), "edits a title change", nil))
+		case "odd_edit_unknown":
+			op = bug.NewEditCommentOp(author, 1600000900, unknown, "edits nothing", nil)
+		case "odd_meta_unknown":
+			op = bug.NewSetMetadataOp(author, 1600000900, unknown, map[string]string{"k": "v"})
+		case "odd_comment_huge":
+			op = bug.NewAddCommentOp(author, 1600000900, strings.Repeat("long line of a long comment\n", 8000), nil)
+		case "odd_time_before_create":
+			op = bug.NewAddCommentOp(author, 5, "written before the bug", nil)
+			more = append(more, bug.NewEditCommentOp(author, 4, op.Id(), "edited even earlier", nil))
+		case "odd_time_negative":
+			op = bug.NewAddCommentOp(author, -1600000900, "negative time", nil)
+		}
+		for _, o := range append([]dag.Operation{op}, more...) {
+			b, err := json.Marshal(o)
+			hx.Must(err)
+			ops = append(ops, b)
+		}
+		p.ops = ops
 	case "op_short_nonce":
 		ops[len(ops)-1] = editOp(ops[len(ops)-1], func(m map[string]interface{}) { m["nonce"] = "AAAA" })
 	case "op_no_nonce":
